@@ -660,6 +660,45 @@ def t_ensure_aw(E):
     E.run_paths(body)
 
 
+def t_run_aw_threadsafe(E):
+    c17_engine(E)
+    mod = E.modules[MOD]
+    fn = mod.functions.get('run_aw_threadsafe')
+    if fn is None:
+        raise Unsupported('run_aw_threadsafe no longer exists')
+    f = VFunc(fn, None, mod, MOD + '.run_aw_threadsafe')
+    Qn = f.qualname
+    E.cur_func = Qn
+    E.inline |= {MOD + '._aw_to_coro'}
+    st = {}
+
+    def body():
+        st.clear()
+        st['top'] = Qn
+        install_c17(E, st, Qn)
+        target = E.fresh('target_loop', LoopS)
+        E.w['cur_loop'] = z3.Const('callers_loop', LoopS)
+        E.assume(target != E.w['cur_loop'])
+        # the documented precondition of this thin wrapper: the target is running in another thread and keeps running
+        E.assume(z3.And(z3.Select(st['forever'](), target), z3.Not(z3.Select(st['closed'](), target))))
+        aw = E.fresh_val('aw')
+        E.cover(Qn + '/requires')
+        E.canary(Qn + '/canary@entry')
+        out = aw_outcome(aw.t)
+        try:
+            r = E.await_(E.call(f, [aw, VVal(target)], {}), None)
+            E.oblige(Qn + '/ensures.returns_exactly_the_awaitables_result',
+                     z3.And(z3.BoolVal(isinstance(r, VVal)), z3.Not(is_exc(out)), r.t == out if isinstance(r, VVal) else False))
+        except PyExc as pe:
+            E.oblige(Qn + '/signals.raises_exactly_the_awaitables_exception',
+                     z3.And(z3.BoolVal(pe.exc.info.get('origin') == 'awaitable'), is_exc(out),
+                            pe.exc.ident == out if pe.exc.ident is not None else False))
+        ev = st.get('evaluated', [])
+        E.oblige(Qn + '/ensures.awaitable_evaluated_exactly_once_on_the_target_loop',
+                 z3.And(z3.BoolVal(len(ev) == 1), ev[0][0] == aw.t if ev else False, ev[0][1] == target if ev else False))
+    E.run_paths(body)
+
+
 def t_loop_in_thread(E):
     c17_engine(E)
     mod = E.modules[MOD]
@@ -847,6 +886,7 @@ TASKS = {
     'bridges.to_sync_iter': (t_to_sync_iter, {'C16'}),
     'bridges.lemmas': (t_lemmas, {'C16'}),
     'bridges.ensure_aw': (t_ensure_aw, {'C17'}),
+    'bridges.run_aw_threadsafe': (t_run_aw_threadsafe, {'C17'}),
     'bridges.loop_in_thread': (t_loop_in_thread, {'C17'}),
     'bridges._get_loop_lock': (t_get_loop_lock, {'C17'}),
 }
